@@ -153,6 +153,13 @@ def check(case):
     kind = channel_kind(spec)
     p = model.order_of(spec)
     res.tag(fam, "D%d" % D, "order%d" % p, kind, "N%s" % ("odd" if N % 2 else "even"))
+    if D >= 2 and case["seed"] % 2 == 0:
+        # call history: a public utility used with the other meshgrid convention on the same (D, N) right before
+        # the stepper is built must not influence it (state leaking through memoised wavenumbers)
+        import exponax as ex
+
+        ex.spectral.build_wavenumbers(D, N, indexing="xy")
+        res.tag("xy_call_before_construction")
     ok, S = res.lib("construct", reg.build, spec, key=key)
     if not ok:
         return res
